@@ -157,5 +157,48 @@ for seq_name in SEQS:
             rep.fail(sig, f"{seq_name} after an unswept dead instance's id was reused (related={related}): fields {got['fields']} relations {got['relations']}; fresh graph: {ref['fields']} {ref['relations']}", {"sequence": seq_name})
         elif got["bookkeeping"][3] != ref["bookkeeping"][3] + 1:
             rep.fail(sig + "::bookkeeping", f"{seq_name} after an unswept dead instance's id was reused (related={related}): {got['bookkeeping'][3]} graph nodes, expected {ref['bookkeeping'][3] + 1} (the 5 new instances and `keep`)", {"sequence": seq_name})
+# ---- BOTH end points of a new relation sit at addresses of dead, related, not yet swept instances
+def dense_dead_pair_scenario():
+    fresh_graph()
+    old_companies = [Company(name=f"OldCo{i}") for i in range(30)]
+    old_people = [Person(name=f"Old{i}") for i in range(300)]
+    for p in old_people:
+        for c in old_companies:
+            p.member_of.append(c)
+    dead_people, dead_companies = {id(p) for p in old_people}, {id(c) for c in old_companies}
+    del old_people, old_companies, p, c
+    gc.collect()
+    person = company = None
+    spare = []
+    for i in range(4000):
+        o = Person(name="Alice")
+        if id(o) in dead_people:
+            person = o
+            break
+        spare.append(o)
+    for i in range(4000):
+        o = Company(name="ACME")
+        if id(o) in dead_companies:
+            company = o
+            break
+        spare.append(o)
+    if person is None or company is None:
+        return None
+    person.member_of.append(company)
+    rels = sorted((getattr(r.source.instance, "name", "<dead>"), r.wrapped_field.name, getattr(r.target.instance, "name", "<dead>"))
+                  for r in SymbolGraph().relations() if r.source.instance is person or r.target.instance is person
+                  or r.source.instance is company or r.target.instance is company)
+    return {"members": sorted(getattr(m, "name", "?") for m in company.members), "member_of": [getattr(c, "name", "?") for c in person.member_of], "relations": rels}
+
+
+st, got = guarded(dense_dead_pair_scenario)
+if not (st == "ok" and got is None):
+    rep.case(("dense-dead-pair",), sample={"scenario": "new person and company at the addresses of dead, related, unswept instances"})
+    want = {"members": ["Alice"], "member_of": ["ACME"], "relations": [("ACME", "members", "Alice"), ("Alice", "member_of", "ACME")]}
+    if st == "exc":
+        rep.fail("member_of::both-ids-reused-before-sweep::raised", f"{type(got).__name__}: {got}", {"scenario": "dense-dead-pair"})
+    elif got != want:
+        rep.fail("member_of::both-ids-reused-before-sweep", f"person.member_of.append(company) with both objects at addresses of dead, related, unswept instances: {got}; on a fresh graph: {want}",
+                 {"scenario": "dense-dead-pair"})
 fresh_graph()
 rep.finish(exhaustive=True)
